@@ -46,6 +46,7 @@ def run_one(mid: str, tier: str, seeds: list[int]) -> dict:
         t0 = time.monotonic()
         caught_by = []
         lines = []
+        harness = False
         for prop in props:
             for s in seeds:
                 env = dict(os.environ, DSIM_SRC=os.path.join(root, "src"), VERIF_SEED=str(s),
@@ -60,10 +61,11 @@ def run_one(mid: str, tier: str, seeds: list[int]) -> dict:
                     caught_by.append(f"{prop}@seed{s}")
                     break
                 if r.returncode == 2:
+                    harness = True
                     lines.append("   HARNESS: " + r.stdout[-300:].replace("\n", " | "))
             if caught_by:
                 break
-        status = "CAUGHT" if caught_by else "MISSED"
+        status = "CAUGHT" if caught_by else ("HARNESS-ERROR" if harness else "MISSED")
         return {"id": mid, "status": status, "by": caught_by, "wall_s": round(time.monotonic() - t0, 1),
                 "lines": lines, "meta": meta}
     finally:
@@ -97,7 +99,9 @@ def main(argv: list[str]) -> int:
             r = run_one(mid, tier, seeds)
             results.append(r)
             exp = r["meta"].get("expected", "caught")
-            ok = (r["status"] == "CAUGHT") == (exp == "caught")
+            # seeded property-breaking changes must be reported; correct changes ("benign") and
+            # changes neutralised by a later repair must pass quietly; a harness error is never ok
+            ok = (r["status"] == "CAUGHT") if exp == "caught" else (r["status"] == "MISSED")
             print(f"{mid}: {r['status']} (expected {exp}) {r.get('by', '')} {r.get('wall_s', '')}s")
             for ln in r.get("lines", []):
                 print("    " + ln)
